@@ -380,9 +380,14 @@ package kcp
 //@   ensures kcp.rx_rto == old(kcp.rx_rto) && kcp.rx_minrto == old(kcp.rx_minrto) && kcp.interval == old(kcp.interval)
 //@   ensures kcp.snd_una == old(kcp.snd_una) && len(kcp.acklist) <= old(len(kcp.acklist))
 //@   ensures 0 < result && result <= kcp.interval
+//@   ensures @C04 [timeout-loss-collapses-cwnd] kcp.nocwnd == 0 && lostSegs > 0 ==> kcp.cwnd == 1
+//@   ensures @C04 [cwnd-never-zero] kcp.nocwnd == 0 ==> kcp.cwnd >= 1
+//@   ensures @C04 [admission-bounded-by-window] newSegsCount > 0 ==> kcp.snd_buf.rlen() <= cwnd
+//@   ensures @C04 [effective-window] cwnd <= kcp.snd_wnd && cwnd <= old(kcp.rmt_wnd) && (kcp.nocwnd == 0 ==> cwnd <= old(kcp.cwnd))
 //@   loop 1 invariant suffixOf(ptr, buffer) && len(buffer) - len(ptr) <= kcp.mtu
 //@   loop 2 invariant kcp.wfR() && kcp.wfS() && kcp.wfW() && newSegsCount >= 0
 //@   loop 2 invariant kcp.snd_queue.sameOrFresh() && kcp.snd_buf.sameOrFresh()
+//@   loop 2 invariant @C04 newSegsCount > 0 ==> kcp.snd_buf.rlen() <= cwnd
 //@   loop 3 invariant suffixOf(ptr, buffer) && len(buffer) - len(ptr) <= kcp.mtu
 //@   loop 3 invariant kcp.snd_buf.clean() && kcp.wfSb() && kcp.wfSn() && 0 < nextUpdate && nextUpdate <= kcp.interval
 //
